@@ -12,6 +12,7 @@ for f in .work/gen.setup/*; do
   cmp -s "$f" "lean/Secp/Gen/$b" || cp "$f" "lean/Secp/Gen/$b"
 done
 rm -rf .work/gen.setup
+( cd lean && lake build Secp.Core.KernelSpecs && lake env lean --run Secp/Core/GenBounds.lean > ../.work/Bounds.lean.new && { cmp -s ../.work/Bounds.lean.new Secp/Gen/Bounds.lean || cp ../.work/Bounds.lean.new Secp/Gen/Bounds.lean; } && rm -f ../.work/Bounds.lean.new )
 ( cd lean && lake build Secp secpdriver )
 # warm the Go build cache for the harness
 rm -rf .work/hsetup && mkdir -p .work/hsetup && cp harness/*.go harness/go.mod .work/hsetup/ && cp "${VERIF_REPO:-/repo}/go.sum" .work/hsetup/
